@@ -15,7 +15,10 @@ use super::try_sync_error::*;
 
 use std::fmt;
 use std::mem;
+#[cfg(not(desync_verif))]
 use std::sync::*;
+#[cfg(desync_verif)]
+use crate::verif::sync::*;
 use std::collections::vec_deque::*;
 use std::result::{Result};
 
@@ -94,6 +97,23 @@ impl Scheduler {
     #[cfg(target_arch = "wasm32")]
     pub fn set_max_threads(&self, max_threads: usize) {
         // Webassembly does not support threads so we run synchronously
+    }
+
+    ///
+    /// Sets the maximum number of threads without trying to start any (verification builds only: the wake-up loop
+    /// of `set_max_threads` does not terminate under an unfair scheduler)
+    ///
+    #[cfg(desync_verif)]
+    pub fn verif_set_max(&self, max_threads: usize) {
+        *self.core.max_threads.lock().expect("Max threads lock") = max_threads;
+    }
+
+    ///
+    /// Number of threads currently owned by the scheduler (verification builds only)
+    ///
+    #[cfg(desync_verif)]
+    pub fn verif_thread_count(&self) -> usize {
+        self.core.threads.lock().expect("Scheduler threads lock").len()
     }
 
     ///
